@@ -483,9 +483,12 @@ const (
 )
 
 func (s *ShortestPathSearch) ExpandSearchTo(to b6.FeatureID, maxDistance float64, weights Weights, w b6.World) {
-	destination := &reachable{point: to, distance: math.Inf(1)}
-	s.byPoint[to] = destination
-	heap.Push(s, destination)
+	destination, ok := s.byPoint[to]
+	if !ok {
+		// Push also records the destination in byPoint
+		destination = &reachable{point: to, distance: math.Inf(1)}
+		heap.Push(s, destination)
+	}
 	for s.Len() > 0 {
 		r := heap.Pop(s).(*reachable)
 		s.byPoint[r.point].visited = true
